@@ -155,6 +155,14 @@ def inline_function(src, qual):
     return ast.unparse(tree)
 
 
+class Mutant(str):
+    """the mutated source, with a description of the mutation"""
+    def __new__(cls, text, desc=""):
+        o = super().__new__(cls, text)
+        o.desc = desc
+        return o
+
+
 def mutants_of(src, qual, limit=12):
     """Behaviour-CHANGING single-point mutants of one function (statement deleted, comparison flipped, arithmetic operator swapped,
     boolean operator swapped, constant perturbed).  Used only to harden the analysers: a mutant may legitimately be ok / violation /
@@ -184,6 +192,11 @@ def mutants_of(src, qual, limit=12):
     import random as _r
     _r.Random(hash(qual) & 0xffff).shuffle(sites)
     out = []
+
+    class _Out(list):
+        def append(self, new):
+            list.append(self, Mutant(new, f"{kind} L{getattr(n[1] if kind == 'del' else n, 'lineno', 0)}: {ast.unparse(n[1] if kind == 'del' else n)[:110]}"))
+    out = _Out()
     for kind, n in sites[:limit]:
         if kind == "cmp":
             old = n.ops[0]
@@ -217,6 +230,9 @@ def mutants_of(src, qual, limit=12):
 
 def one_mutant(args):
     prop, repo, rel, qual, new = args
+    desc = getattr(new, "desc", "")
+    if os.environ.get("SHOW_SURVIVORS"):
+        qual = f"{qual} [{desc}]"
     tmp = None
     try:
         try:
@@ -303,7 +319,7 @@ def main():
         if mode == "mutate":
             mj = []
             for (_p, _r_, rel, qual, _b, _m) in jobs:
-                for new in mutants_of(open(os.path.join(repo, rel)).read(), qual):
+                for new in mutants_of(open(os.path.join(repo, rel)).read(), qual, int(os.environ.get("MUTANTS_PER_FUNCTION", "12"))):
                     mj.append((prop, repo, rel, qual, new))
             with ProcessPoolExecutor(max_workers=16) as ex:
                 res = list(ex.map(one_mutant, mj))
@@ -311,7 +327,7 @@ def main():
             c = Counter(r[1] for r in res)
             print(f"== {prop} [mutate]: {len(res)} mutants: {dict(c)}")
             for q, st, msg in res:
-                if st in ("INTERNAL", "error") or (st == "undecided" and os.environ.get("SHOW_UNDECIDED")):
+                if st in ("INTERNAL", "error") or (st == "undecided" and os.environ.get("SHOW_UNDECIDED")) or (st == "ok" and os.environ.get("SHOW_SURVIVORS")):
                     print(f"   {st:10s} {q}: {msg}")
             continue
         with ProcessPoolExecutor(max_workers=16) as ex:
